@@ -183,7 +183,7 @@ var codecProbes = map[string][]string{
 func mergeCase(c M) M {
 	t := S(c, "t")
 	regs, customs := SS(c, "regs"), SS(c, "customs")
-	o := M{"panic": false, "extra": "lost", "stable": false}
+	o := M{"panic": false, "extra": "lost", "stable": false, "owned": true}
 	p := CatchPanic(func() {
 		x := newOf(t)
 		custom := map[string]any{"x_extra": map[string]any{"k": []any{"v", 1.0}}}
@@ -209,6 +209,22 @@ func mergeCase(c M) M {
 		if err != nil {
 			o["marshalErr"] = err.Error()
 			return
+		}
+		if m, ok := x.(json.Marshaler); ok {
+			// a caller that keeps the bytes of a direct MarshalJSON call while other values are encoded
+			kept, err := m.MarshalJSON()
+			if err == nil {
+				snapshot := string(kept)
+				other := newOf(t)
+				if t != "JWTTokenRequest" {
+					reflect.ValueOf(other).Elem().FieldByName("Claims").Set(reflect.ValueOf(map[string]any{"zz_other": strings.Repeat("OTHER", 40)}))
+				}
+				other.(json.Marshaler).MarshalJSON()
+				other.(json.Marshaler).MarshalJSON()
+				if string(kept) != snapshot {
+					o["owned"] = false
+				}
+			}
 		}
 		var doc M
 		json.Unmarshal(first, &doc)
@@ -265,7 +281,7 @@ var decodeDocs = map[string]map[string]string{
 		"arrayNonString": `["a",1]`, "nestedArray": `[["a"]]`},
 	"time": {"number": `1500000000`, "float": `1500000000.7`, "negnumber": `-5`, "rfc3339": `"2017-07-14T02:40:00Z"`, "badstring": `"yesterday"`, "null": `null`,
 		"bool": `true`, "object": `{}`, "array": `[1500000000]`, "bigfloat": `1e400`, "numericString": `"1500000000"`},
-	"locale": {"tag": `"de"`, "emptyString": `""`, "unknownTag": `"zz-ZZ"`, "malformedTag": `"not a tag!"`, "number": `5`, "null": `null`, "object": `{}`},
+	"locale": {"tag": `"de"`, "emptyString": `""`, "unknownTag": `"zz-ZZ"`, "unknownSubtag": `"de-ZZZ"`, "unknownScript": `"en-Abcd"`, "unknownLang": `"qq-CH"`, "malformedTag": `"not a tag!"`, "number": `5`, "null": `null`, "object": `{}`},
 	"locales": {"spaceDelimited": `"de fr"`, "array": `["de","fr"]`, "withUnknown": `["de","zz-ZZ","fr"]`, "emptyString": `""`, "null": `null`, "number": `5`,
 		"object": `{}`, "arrayNonString": `["de",1]`},
 	"bool": {"true": `true`, "stringTrue": `"true"`, "false": `false`, "stringFalse": `"false"`, "stringOther": `"yes"`, "number": `1`, "null": `null`, "object": `{}`},
